@@ -288,7 +288,8 @@ struct TreeGen {
     Node n;
     // 'x' and ' ' styles: the first character of an option name is read by the section parser, white space
     // behind it is skipped, and the empty name cannot be written
-    NameRule r{fl.opt, &f, true, flat, !flat || f.family == '_'};
+    // (swallowed white space behind the first character: finding C09-option-name-second-character; no draw involved)
+    NameRule r{fl.opt, &f, true, flat && c.exclude("C09-option-name-second-character"), !flat || f.family == '_'};
     n.name = gen_name(c, r, opt_pool);
     n.value = value();
     ++nodes;
@@ -314,7 +315,7 @@ struct TreeGen {
   // 'x' and ' ' styles: options first, then sections holding options only; '_': options only
   void flat(std::vector<Node> &out) {
     while (out.size() < lim.max_fan && nodes < lim.max_nodes && c.more()) out.push_back(option(true));
-    if (f.family == '_') return;
+    if (f.family == '_' || (f.family == 'x' && f.sstart != f.send)) return;  // no section can be written
     size_t ns = 0;
     while (ns < lim.max_fan && nodes < lim.max_nodes && c.more()) {
       Node n;
